@@ -320,6 +320,68 @@ STRENGTHENED6 = {
  "C20/b": "C20 missed it; two sockets queueing before the same poll",
 }
 
+NEEDS7 = {
+ "C02/a": "acceptable-ACK upper bound lowered to the highest sequence number recorded as sent: the ACK of an accepted zero-window probe is rejected with a challenge ACK before the window field is read - the sender probes for ever after one lost window update",
+ "C02/b": "neighbor Cache::fill returns early when the same mapping is already stored: an expired entry can no longer be revived by an ARP reply / NA - after > 60 s of silence the side that speaks first requests for ever",
+ "C03/a": "tcp window_end anchored at RCV.NXT instead of last ACK + last window: a segment that overshoots the window while an ACK is still delayed is not trimmed and poll panics",
+ "C03/b": "UdpNhcRepr::header_len with half-open port ranges: an echo from/to port 0xf0bf / 0xf0ff on 802.15.4 carves a buffer too long and poll panics",
+ "C04/a": "remote_last_ack recorded before the early returns for keep-alive / zero-window-probe segments: a probe sent while received octets are still unacknowledged moves the believed right edge beyond anything on the wire",
+ "C04/b": "(Listen, Syn) arm no longer zeroes remote_win_shift when the peer offers no window scaling: a listener with a >= 64 KiB buffer sends shifted window fields the peer reads unscaled, and accepts 2^shift times what it advertised",
+ "C05/a": "window field of a segment that starts before RCV.NXT is ignored: a re-packetised peer retransmission that acknowledges new data and shrinks the window leaves the old window in force",
+ "C05/b": "Timer::set_keep_alive overwrites Retransmit/FastRetransmit/ZWP/Close timers (same family as C01-j, found independently): keep-alive octet 0x00 sent on an unacknowledged sequence number",
+ "C06/a": "Ipv6OptionsIterator stops one octet early: a Hop-by-Hop header whose last option is Pad1 parses back shorter",
+ "C06/b": "SixlowpanFragPacket::datagram_size read with a 10-bit mask: sizes 1024..2047 parse back as size-1024",
+ "C07/a": "Ieee802154Frame::check_len treats every ACK as address-less while 2015 enhanced ACKs carry addressing: truncated enhanced ACK passes new_checked and the address accessors panic",
+ "C07/b": "NdiscOption::link_layer_addr computes data_len*8-2 in u8: a link-layer address option of Length >= 32 (>= 256 octets) panics with overflow",
+ "C08/a": "UDP fill_checksum maps a computed 0 to ffff only for IPv4 destinations: an IPv6 datagram whose checksum computes to zero leaves with 0000",
+ "C08/b": "Ipv4Packet::verify_checksum covers the fixed 20 octets only: a received header with options summing to zero is accepted with bit errors in the option area",
+ "C09/a": "fragmenter-busy guard hoisted out of the per-socket loop (IPv4): second socket's oversized datagram in the same egress pass is dequeued and dropped",
+ "C09/b": "continuation IPv4 fragments sized ip_mtu - header without rounding to 8: on an MTU with (mtu-20)%8 != 0 a 3+-fragment datagram has an unaligned middle fragment and overlapping offsets",
+ "C10/a": "6LoWPAN first-fragment offset bookkeeping `+=` with the reset moved into Fragmenter::reset(): a fragmented datagram started while the fragmenter is finished-but-not-reset carries FRAG_N offsets beyond its datagram_size",
+ "C10/b": "IPHC buffer_len no longer counts hop limit 1 as compressed while emit still compresses it: socket with hop limit 1 on 802.15.4 emits a stray octet after the IPHC header",
+ "C11/a": "(_, Rst) arm no longer clears the tuple: the next egress answers every accepted RST with a RST|ACK",
+ "C11/b": "process_ipv4 'routed to one of our own addresses' acceptance applied with AnyIP off: with a route via an own address foreign unicast destinations are delivered and answered",
+ "C12/a": "IPv4 identification written into the fragmenter where it is drawn: any packet dispatched while fragments are pending overwrites the ident of the train in flight",
+ "C12/b": "continuation fragments not rounded to 8 octets (same change as C09/b, found independently)",
+ "C13/a": "keep-alive dispatch conditions also require keep_alive.is_some(): set_keep_alive(None) with the timer armed leaves poll_at at the old deadline for ever (spin)",
+ "C13/b": "socket_egress silences a socket only on NeighborPending, not on NoRoute: a datagram for an off-link destination without (or with an expired) route makes poll_at 'now' for ever",
+ "C14/a": "RingBuffer::contiguous_window rewritten as a cursor comparison: an exactly full ring reports capacity - read_at free elements, slice enqueues overwrite the oldest data",
+ "C14/b": "enqueue_with_infallible `contig_window <= max_size`: an empty buffer refuses a packet of exactly its payload capacity through the closure interface",
+ "C15/a": "add_then_remove_front trims octets already contiguous at the front but advances offset before computing the trimmed size: wrong length returned when the segment starts inside a pending front range",
+ "C15/b": "clear() resets only contigs 0..len-1: after clearing an exactly full tracker the last range survives",
+ "C16/a": "NA without Override checks the cache under the TARGET address instead of the source: an Override-clear advertisement with target != source replaces a live entry",
+ "C16/b": "poll_ingress_single no longer advances the interface clock: with the split API frames are handled at a stale time - 100 s old entry used, two requests within a second",
+ "C17/a": "remote_last_ack/remote_last_win recorded before emit: after a failed transmit the RST acceptance window reaches beyond anything on the wire (ESTABLISHED and SYN-RECEIVED)",
+ "C17/b": "tcp accepts() matches any of the interface's addresses: a connected socket takes segments addressed to another own address (FIN, RST drive its state)",
+ "C18/a": "T2-only ACK with T2 == lease accepted (`<=`): rebind_at == expires_at, the rebinding phase never happens",
+ "C18/b": "server-identifier check moved into the (Discovering, Offer) arm: DHCPACK without option 54 accepted in REQUESTING / RENEWING",
+ "C19/a": "dns dispatch `return` instead of `continue` for a query waiting for its retransmission: with two pending queries the later one is never transmitted while poll_at says now",
+ "C19/b": "'ran out of servers' guard `==` instead of `>=`: update_servers() with a shorter list under a query that has failed over panics poll (needs DNS_MAX_SERVER_COUNT >= 2)",
+ "C20/a": "dispatch_sixlowpan busy guard tests !is_empty() instead of !finished(): a fragmented datagram dispatched while the fragmenter is finished-but-not-reset is silently dropped",
+ "C20/b": "PacketAssembler::add rejects offsets beyond the current (growing) buffer: a FRAGN that overtakes FRAG1 on a receiver's first reassembly is dropped",
+}
+STRENGTHENED7 = {
+ "C03/a": "C03 missed it; see DESIGN.md (data follow-ups around the window, frames queued before one poll)",
+ "C03/b": "C03 missed it; see DESIGN.md (echoing UDP sockets on the NHC boundary ports)",
+ "C04/a": "C04 missed it; configurations with delayed ACKs and keep-alive probes more frequent than the ACK delay",
+ "C04/b": "C04 missed it; >64 KiB buffers facing a peer without window scaling (passive and active open)",
+ "C05/a": "C05 missed it; peer data segments (also re-packetised) in the sender BFS and a latest-window clause for an in-order peer",
+ "C05/b": "C05 missed it; a keep-alive's garbage octet is only excused on an acknowledged sequence number",
+ "C08/b": "C08 missed it; base packets with IPv4 options in the bit-flip part",
+ "C09/a": "C09 missed it; two-socket family (scripted pairs)",
+ "C09/b": "C09 missed it; fragment trains rebuilt from offset x 8 and length, alignment of non-last fragments",
+ "C10/b": "C10 missed it; socket hop limits {1,2,63,64,65,254,255} as scenario dimension",
+ "C11/b": "C11 missed it; routing table and AnyIP as table dimensions",
+ "C13/a": "C13 missed it; keep-alive cleared in mid-connection (tcp2 deviation ClearKeepAlive)",
+ "C16/a": "C16 missed it; NAs whose target differs from their source",
+ "C16/b": "C16 reported it as machinery error; frames judged at harness time, split ingress/egress driving discipline",
+ "C17/b": "C17 missed it; segments with the connection's ports addressed to the interface's other address",
+ "C18/a": "C18 missed it; lone T1 / lone T2 ACKs and a rebinding-attempt clause for every T1/T2 shape",
+ "C19/a": "C19 exited 2 (machinery error next to the verdict); 'query not transmitted by the poll after start_query' is now a clause",
+ "C19/b": "C19 missed it; update_servers() in the alphabet",
+ "C20/b": "C20 missed it; delivery demanded for every fragment order on a fresh receiver",
+}
+
 def next_letter(prop, used):
     for c in "abcdefghijklmnopqrstuvwxyz":
         if f"{prop}-{c}" not in used:
@@ -337,6 +399,8 @@ def main():
         NEEDS, STRENGTHENED = NEEDS5, STRENGTHENED5
     if rnd == 6:
         NEEDS, STRENGTHENED = NEEDS6, STRENGTHENED6
+    if rnd == 7:
+        NEEDS, STRENGTHENED = NEEDS7, STRENGTHENED7
     used = {os.path.basename(d) for d in glob.glob('/verif/seeded/*')}
     # seeds already stored by this script (origin_path recorded) are updated in place
     have = {}
